@@ -9,7 +9,7 @@ PROP = "C13"
 
 def run(res, prop=PROP, mode=MODE, kinds=None):
     kinds = list(kinds or KINDS)
-    t_ok, t_log = c05.rs2v()
+    t_ok, t_log = c05.rs2v("exit_ops")
     proof = proof_stage(res, prop, extra_obligations=2) if t_ok else dict(ok=False, discharged=0, log=t_log, broken_at="rs2v: " + t_log[-300:])
     if not t_ok: res.coverage.update(obligations=2, discharged=0, checker_cmd="rs2v", trusted_base=list(TRUSTED_BASE))
     build_ml(); build_cli()
